@@ -39,6 +39,12 @@ CHECKS = {
             "parts": [part("TestC12", 8, 150, 16, 3000), part("TestC12Lru", 2, 2000, 4, 100000)]},
     "C19": {"level": "exploration", "scheduled": True,
             "parts": [part("TestC19", 8, 100, 16, 2000)]},
+    "C15": {"level": "exploration", "scheduled": True,
+            "parts": [part("TestC15", 8, 40, 16, 600),
+                      part("TestC15Race", 1, 25, 2, 300, race=True, env={"GOMAXPROCS": "1"}),
+                      part("TestC15Race", 1, 25, 2, 300, race=True, env={"GOMAXPROCS": "2"}),
+                      part("TestC15Race", 1, 25, 2, 300, race=True, env={"GOMAXPROCS": "4"}),
+                      part("TestC15Race", 1, 25, 2, 300, race=True, env={"GOMAXPROCS": "16"})]},
     "C04": {"level": "exploration", "scheduled": True,
             "parts": [part("TestC04", 8, 100, 16, 1500)]},
 }
